@@ -296,6 +296,10 @@ def applyFn (R : Ro) (f : String) (args : List Val) : Except Err Val :=
     (match args with | [.cells _] => .ok (.scanner false R.hard []) | _ => .error (.stuck "NewHardwrapScanner"))
   else if f = "hardLines" then
     (match args with | [.text] => .ok (.strs R.hard) | _ => .error (.stuck "hardLines"))
+  else if f = "meth:New" then
+    (match args with
+     | [.win w, .int c, .int r, .int cols, .int rows] => .ok (.win (w.new c r cols rows))
+     | _ => .error (.stuck "Window.New"))
   else if f = "less:ZIndex" then .ok .lessZ
   else match R.self f args with
     | some r => r
